@@ -4,7 +4,8 @@ import json, subprocess, sys, tempfile, os, xml.etree.ElementTree as ET
 b = json.load(open("/root/.vp/BASELINE.json"))
 with tempfile.TemporaryDirectory() as d:
     x = os.path.join(d, "j.xml")
-    subprocess.run("cd /repo && /venv/bin/python -m pytest -ra -q -p no:cacheprovider --timeout=900 --continue-on-collection-errors --junitxml=%s" % x,
+    repo = os.environ.get("VERIF_REPO", "/repo")
+    subprocess.run("cd %s && PYTHONPATH=%s /venv/bin/python -m pytest -ra -q -p no:cacheprovider --timeout=900 --continue-on-collection-errors --junitxml=%s" % (repo, repo, x),
                    shell=True, capture_output=True)
     passed = set()
     for tc in ET.parse(x).getroot().iter("testcase"):
